@@ -26,6 +26,7 @@ The Python classes of a case are built afresh for every case (also on replay), s
 The handler's connection is a stub recording sendMessage; every reply is re-parsed from its wire bytes."""
 import inspect
 import json
+import re
 import sys
 
 from harness import common
@@ -38,7 +39,18 @@ ASSUMPTIONS = [
     'a function is stored in its class under its own __name__; decorated functions and dbus_<member> attributes are '
     'plain functions of class __dict__s (no instance attributes, staticmethods, descriptors); interface names are non-empty',
     'the sender of a call is absent or a valid bus name (the bus stamps it); calls with an invalid sender are compared '
-    'with the model only (the handler raises / stays silent), like objects declaring one interface name twice',
+    'with the model only (the handler raises / stays silent)',
+    'an interface name declared twice in the classes of one object (a subclass re-declaring an interface of its base under '
+    'the same name: a newer revision with more / fewer members or changed signatures; the theorems of Props/C10.v assume '
+    'distinct names): the property text does not say which declaration counts, so such a call is judged (by the same Coq '
+    'verdict Spec.DispatchSpec.judge, evaluated on the declarations as they stand) only where EVERY reading - the most '
+    'derived declaration overrides, the union of the declarations, the first declaration that has the member - gives the '
+    'same answer to "the member exists on that interface" and the same signatures: the call names the interface and the '
+    'member is in none of its declarations, or it is in the most derived one and every other declaration that has it '
+    'declares it with the same signatures; for a call without interface header additionally the first declaration having '
+    'the member must be the most derived declaration of its name and precede every declaration of any other interface '
+    'name that has the member. Everything else about a re-declared name (a member only the base revision has, revisions '
+    'disagreeing on a signature) is not compared at all (`redeclared: left open` in the distribution): the property is silent there',
     'reading of the property: the calls the handler answers itself (Peer.Ping, Introspectable.Introspect, '
     'ObjectManager.GetManagedObjects) and calls that cannot be dispatched are covered by "at most one reply, exactly one '
     'if a reply is expected"; a reply to such a call flagged no-reply is not counted as a violation',
@@ -475,6 +487,59 @@ def canon(impl, model, case):
     return out_i, out_m
 
 
+def decls_of(case, path, E):
+    """[[name, members], ...] declared by the classes of the object exported at path, most derived class first
+    (user classes only), or None when nothing is exported there"""
+    ci = {p: c for p, c in case['objects']}.get(path)
+    if ci is None:
+        return None
+    w = build_world(case, E)
+    out = []
+    for c in w['classes'][ci].__mro__:
+        if c in w['classes']:
+            cd = case['classes'][w['classes'].index(c)]
+            if cd['ifaces'] is not None:
+                out += [case['ifaces'][i] for i in cd['ifaces']]
+    return out
+
+
+def redeclared(case, step, E):
+    """-> None: the addressed object declares no interface name twice (or the description of the call is missing);
+    True: it does, and every reading of a re-declared interface gives this call the same target (ASSUMPTIONS);
+    False: it does, and the readings differ"""
+    call = step.get('call')
+    if not call:
+        return None
+    decls = decls_of(case, call['path'], E)
+    if decls is None:
+        return None
+    names = [d[0] for d in decls]
+    if len(set(names)) == len(names):
+        return None
+    if call.get('sender') is not None and not re.fullmatch(r':1\.[0-9]+', str(call.get('sender'))):
+        return False            # only calls whose sender is absent or a unique name (the other hypothesis) are judged
+    member = call['member']
+
+    def sigs(d):
+        return [[m[1], m[2]] for m in d[1] if m[0] == member][:1]
+
+    def name_clear(n):
+        dn = [d for d in decls if d[0] == n]
+        having = [d for d in dn if sigs(d)]
+        return not having or (bool(sigs(dn[0])) and all(sigs(d) == sigs(dn[0]) for d in having))
+    iface = call.get('iface')
+    if iface:
+        return name_clear(iface)
+    having = [k for k, d in enumerate(decls) if sigs(d)]
+    if not having:
+        return True
+    p = having[0]
+    n = decls[p][0]
+    if names.index(n) != p or not name_clear(n):
+        return False
+    return all(names.index(decls[k][0]) > p for k in having if decls[k][0] != n)
+
+
 class PerSignature(object):
     def __init__(self, res, limit=10):
         self.res = res
@@ -564,9 +629,14 @@ def evaluate(ctx, cases, res):
                 lv['parse flags ignored (D04)'] += 1
             if m_obs(leg_text) != cur:
                 lv['error text not a DBus string (D30)'] += 1
+            rd = None if wf else redeclared(c, st, E)
+            if rd is not None:
+                bump('redeclared: judged' if rd else 'redeclared: left open')
+            if rd is False:
+                continue        # the property does not say which declaration counts here: not compared at all
             if ci != cm:
                 res.disagree(rc, [where + 'implementation', ci], [where + 'model', cm])
-            if wf:
+            if wf or rd:
                 if v_model != 0:
                     res.disagree(rc, ['spec verdict on the model observation', v_model], ['expected', 0], what='spec')
                 if v_impl != 0:
@@ -1059,6 +1129,131 @@ def gen_random_sequences(ctx, count, E):
             made += 1
 
 
+def redeclare(rng, w, E):
+    """a class with bases re-declares, under the same name, an interface that one of its ancestors declares: a newer
+    revision with members added, dropped, or with changed signatures; implementations for what is new are bound in
+    the re-declaring class; an object of that class is exported.  -> the re-declared name, or None"""
+    ncls = len(w['classes'])
+    ks = [k for k in range(ncls) if w['classes'][k]['bases']]
+    if not ks or rng.random() < 0.3:
+        w['classes'].append({'bases': [rng.randrange(ncls)], 'ifaces': None, 'attrs': []})
+        ks = [ncls]
+        if not world_ok(w, E):
+            return None
+    k = rng.choice(ks)
+    inherited = [i for i in ideal_ifaces(w, k, E) if i[0] != PROPS and i not in
+                 [w['ifaces'][x] for x in (w['classes'][k]['ifaces'] or [])]]
+    if not inherited:
+        return None
+    old = rng.choice(inherited)
+    members = [list(m) for m in old[1]]
+    fid = max([a[1] for cd in w['classes'] for a in cd['attrs']] + [0])
+    attrs = {a[0]: a for a in w['classes'][k]['attrs']}
+    muts = rng.sample(['add', 'add', 'drop', 'sig_in', 'sig_out'], rng.choice([1, 1, 2, 3]))
+    for mu in muts:
+        if mu == 'add':
+            free = [m for m in MEMBERS + ['Extra'] if m not in [x[0] for x in members]]
+            if not free:
+                continue
+            m = rng.choice(free)
+            members.insert(rng.randrange(len(members) + 1), [m, gen_sig(rng), gen_sig(rng)])
+            fid += 1
+            r = rng.random()
+            if r < 0.45:
+                a = ['dbus_' + m, fid, None, rng.random() < 0.3]
+            elif r < 0.9:
+                a = ['rev_' + m, fid, [old[0], m], rng.random() < 0.3]
+            else:
+                continue                                   # declared, not implemented
+            if a[0] not in attrs:
+                attrs[a[0]] = a
+        elif mu == 'drop' and len(members) > 1:
+            del members[rng.randrange(len(members))]
+        elif mu == 'sig_in' and members:
+            rng.choice(members)[1] = gen_sig(rng)
+        elif mu == 'sig_out' and members:
+            rng.choice(members)[2] = gen_sig(rng)
+    if members == [list(m) for m in old[1]]:
+        return None
+    w['ifaces'] = w['ifaces'] + [[old[0], members]]
+    own = list(w['classes'][k]['ifaces'] or [])
+    own.insert(rng.randrange(len(own) + 1), len(w['ifaces']) - 1)
+    w['classes'][k] = dict(w['classes'][k], ifaces=own, attrs=list(attrs.values()))
+    # an object of the re-declaring class (or of a class derived from it)
+    below = [c for c in range(len(w['classes'])) if c == k or k in w['classes'][c]['bases']]
+    w['objects'] = [[w['objects'][0][0], rng.choice(below)]] + w['objects'][1:]
+    return old[0]
+
+
+def gen_redeclared(ctx, count, E):
+    """calls to objects one of whose classes re-declares an inherited interface under the same name: members of
+    either revision and of none, with and without the interface header, right and wrong signatures"""
+    rng = ctx.rng
+    made = 0
+    while made < count:
+        w = gen_world(rng, E)
+        if not world_ok(w, E):
+            continue
+        w = json.loads(json.dumps(w))
+        name = redeclare(rng, w, E)
+        if name is None or not world_ok(w, E):
+            continue
+        path = w['objects'][0][0]
+        revs = [i for i in ideal_ifaces(w, w['objects'][0][1], E) if i[0] == name]
+        if len(revs) < 2:
+            continue
+        cases = []
+        for _ in range(rng.choice([4, 6, 8])):
+            if rng.random() < 0.15:
+                call, sig_out, props = gen_call(rng, w, E)
+            else:
+                props = None
+                pool = sorted({m[0] for r in revs for m in r[1]})
+                member = rng.choice(pool) if rng.random() < 0.92 else rng.choice(MEMBERS + ['Nope'])
+                decl = [m for r in revs for m in r[1] if m[0] == member]
+                m = rng.choice(decl) if decl and rng.random() < 0.3 else (decl[0] if decl else [member, gen_sig(rng), gen_sig(rng)])
+                sig_out = decl[0][2] if decl else None
+                msig = m[1] if rng.random() < 0.9 else gen_sig(rng)
+                body = [gen_value(rng, ct, E)[1] for ct in parse_types(msig, E)]
+                call = {'path': path, 'iface': name if rng.random() < 0.65 else None, 'member': member,
+                        'sig': msig if (msig or rng.random() < 0.5) else None, 'body': body,
+                        'sender': SENDER if rng.random() < 0.9 else None, 'expect': rng.random() < 0.75}
+            out = gen_out(rng, sig_out if sig_out is not None else gen_sig(rng), E)
+            cases.append(make_case(w, call, out, E, props))
+        # half of them as one sequence on one set of classes (the caches of the library are then warm)
+        if rng.random() < 0.5:
+            yield as_sequence(w, cases)
+            made += 1
+        else:
+            for c in cases:
+                yield c
+                made += 1
+
+
+def redeclared_fixed(E):
+    """a two-level hierarchy whose subclass re-declares the interface of its base with one more member (dbus_<member>
+    and decorator bindings), and one whose subclass changes nothing but adds a second interface"""
+    v1 = ['org.ex.Calc', [['Add', 'ii', 'i']]]
+    v2 = ['org.ex.Calc', [['Add', 'ii', 'i'], ['Mul', 'ii', 'i'], ['Neg', 'i', 'i']]]
+    w = {'ifaces': [v1, v2],
+         'classes': [{'bases': [], 'ifaces': [0], 'attrs': [['dbus_Add', 1, None, False]]},
+                     {'bases': [0], 'ifaces': [1], 'attrs': [['dbus_Mul', 2, None, False], ['negate', 3, ['org.ex.Calc', 'Neg'], True]]},
+                     {'bases': [1], 'ifaces': None, 'attrs': []}],
+         'objects': [['/calc', 1], ['/old', 0], ['/sub', 2]]}
+    for path in ('/calc', '/sub', '/old'):
+        cases = []
+        for iface in ('org.ex.Calc', None):
+            for member, sig, body in (('Add', 'ii', [[0, 2], [0, 3]]), ('Mul', 'ii', [[0, 2], [0, 3]]), ('Neg', 'i', [[0, 4]]),
+                                      ('Mul', 'i', [[0, 2]]), ('Nope', 'ii', [[0, 2], [0, 3]])):
+                for expect in (True, False):
+                    call = {'path': path, 'iface': iface, 'member': member, 'sig': sig, 'body': body, 'sender': SENDER,
+                            'expect': expect}
+                    cases.append(make_case(w, call, ['value', [0, 6]], E))
+        for c in cases:
+            yield c
+        yield as_sequence(w, cases[:8])
+
+
 def run(ctx, res):
     E = env()
     nrand = ctx.n(2000, 40000)
@@ -1076,8 +1271,15 @@ def run(ctx, res):
                 'class, one of a subclass overriding an implementation) x interface A / B / none on 16 worlds where member Who sits '
                 'on two interfaces bound in 4 styles with all combinations of dbusCaller wishes, and random 2-3 call sequences '
                 'on random worlds (400 quick / 6000 thorough); about 15 %% of the random calls and every 7th grid call carry a '
-                'header field with an unknown code before the DESTINATION/SENDER/SIGNATURE fields or first. '
-                'A case is non-trivial if a reply was sent or user code ran; distinct by hash' % (nrand, len(ARG_TYPES), stride))
+                'header field with an unknown code before the DESTINATION/SENDER/SIGNATURE fields or first; (e) RE-DECLARED '
+                'INTERFACES: %d calls (half of them in sequences) on random worlds in which a class with bases declares again, '
+                'under the same name, an interface one of its ancestors declares - members added (bound by dbus_<member> or '
+                'decorator in the re-declaring class, or left unimplemented), dropped, in / out signatures changed - addressed '
+                'to an object of that class or of a subclass, members drawn from both revisions, with and without interface '
+                'header, plus a fixed base / subclass pair; compared with the model, and judged by the Coq verdict where '
+                'every reading of a re-declared name agrees (ASSUMPTIONS). '
+                'A case is non-trivial if a reply was sent or user code ran; distinct by hash' % (nrand, len(ARG_TYPES), stride,
+                                                                                                  ctx.n(600, 10000)))
     evaluate(ctx, list(gen_builtin(ctx, E)), res)
     evaluate(ctx, list(gen_small(ctx, E, stride)), res)
     batch = []
@@ -1091,6 +1293,15 @@ def run(ctx, res):
     evaluate(ctx, list(gen_caller_sequences(ctx, E, ctx.n(6, 60))), res)
     batch = []
     for c in gen_random_sequences(ctx, ctx.n(400, 6000), E):
+        batch.append(c)
+        if len(batch) >= 2000:
+            evaluate(ctx, batch, res)
+            batch = []
+    if batch:
+        evaluate(ctx, batch, res)
+    evaluate(ctx, list(redeclared_fixed(E)), res)
+    batch = []
+    for c in gen_redeclared(ctx, ctx.n(600, 10000), E):
         batch.append(c)
         if len(batch) >= 2000:
             evaluate(ctx, batch, res)
